@@ -173,11 +173,20 @@ func (c *Context) ActorOf(actor vivid.Actor, options ...vivid.ActorOption) (vivi
 		return nil, err
 	}
 
+	// 自身状态须在 childrenLock 内（与登记同一临界区）重新读取：其它协程调用 ActorOf（ActorSystem.ActorOf）时，
+	// 自身的终止流程可能在函数入口的判定之后才开始甚至已经结束。终止流程在同一把锁内取子 Actor 快照、判定子 Actor 是否已全部终止
+	// （见 checkAndMarkKilled），因此这里要么被其快照覆盖，要么读到 killing（由下方负责终止新的子 Actor），要么读到 killed 而拒绝创建；
+	// 否则新的子 Actor 会在父级（乃至整个系统）终止之后继续存活
+	c.childrenLock.Lock()
+	status = atomic.LoadInt32(&c.state)
+	if status == killed {
+		c.childrenLock.Unlock()
+		return nil, vivid.ErrorActorDeaded
+	}
 	if c.system.appendActorContext(childCtx) {
+		c.childrenLock.Unlock()
 		return nil, vivid.ErrorActorAlreadyExists.WithMessage(childCtx.Ref().GetPath())
 	}
-
-	c.childrenLock.Lock()
 	if c.children == nil {
 		c.children = make(map[vivid.ActorPath]vivid.ActorRef)
 	}
